@@ -189,6 +189,66 @@ pub(crate) mod verif_pc {
         core::mem::forget(s);
     }
 
+    // ------------------------------------------------------------------ confirmed frame (C03, C04, C01, C09)
+
+    fn confirmed_frame_case(n: usize) {
+        let mut reg = PlayerRegistry::<CfgRL> { handles: HashMap::new(), remotes: HashMap::new(), spectators: HashMap::new() };
+        reg.handles.insert(0, PlayerType::Local);
+        let mut h = 1;
+        while h < n {
+            reg.handles.insert(h, PlayerType::Remote(8 + h as u8));
+            h += 1;
+        }
+        let mut s = P2PSession::<CfgRL>::new(n, 2, Box::new(NullSocket), reg, false, DesyncDetection::Off, 0, 60);
+        s.state = SessionState::Running;
+        let mut expect = i32::MAX;
+        let mut connected = 0;
+        let mut gap = false; // a disconnected player with a lower handle than a connected one
+        let mut seen_disc = false;
+        let mut i = 0;
+        while i < n {
+            let lf: Frame = kani::any();
+            kani::assume(lf >= NULL_FRAME && lf < (1 << 20));
+            let d: bool = kani::any();
+            s.local_connect_status[i].last_frame = lf;
+            s.local_connect_status[i].disconnected = d;
+            if !d {
+                connected += 1;
+                if lf < expect {
+                    expect = lf;
+                }
+                if seen_disc {
+                    gap = true;
+                }
+            } else {
+                seen_disc = true;
+            }
+            i += 1;
+        }
+        kani::assume(connected >= 1); // the local player(s) of a live session are never marked disconnected
+        assert!(s.confirmed_frame() == expect, "C03/C04: confirmed frame = min over ALL connected players of the newest frame received");
+        kani::cover!(gap, "a dropped player has a lower handle than a connected one");
+        kani::cover!(connected == 1, "only one player left");
+        core::mem::forget(s);
+    }
+    macro_rules! confirmed_frame_min {
+        ($name:ident, $n:expr) => {
+            /// confirmed_frame() is the minimum, over every player NOT marked disconnected, of the newest frame received
+            /// from it - for every combination of disconnected flags and frames (a dropped player never holds the
+            /// confirmed frame back, a connected one always does, whatever their handles' order).
+            /// (instance: number of players)
+            #[kani::proof]
+            #[kani::unwind(8)]
+            #[kani::stub(alloc::fmt::format, stub_format)]
+            fn $name() {
+                confirmed_frame_case($n);
+            }
+        };
+    }
+    confirmed_frame_min!(pc_confirmed_frame_min_n2, 2);
+    confirmed_frame_min!(pc_confirmed_frame_min_n3, 3);
+    confirmed_frame_min!(pc_confirmed_frame_min_n4, 4);
+
     // ------------------------------------------------------------------ wait recommendation (C15)
 
     /// check_wait_recommendation: frames_ahead() is the endpoint's averaged advantage; a
@@ -597,7 +657,17 @@ pub(crate) mod verif_pc {
                 let v1: [u8; crate::input_queue::verif_q::RING] = kani::any();
                 let la1: Frame = c - 2; // the remote is one frame short of the last simulated frame
                 let keep = if $conf >= 1 { $conf - 1 } else { 0 };
-                vs::install(&mut s.sync_layer, c, $conf, $saved, queue_with(c - 1, keep, &v0), queue_with(la1, keep, &v1));
+                // the remote's queue may still be in prediction mode WITHOUT a misprediction of its own (the rollback is
+                // then caused by another player / a disconnect): sticky prediction = its newest input, handed out for
+                // frame la1+1.. up to the last simulated frame. The rollback must reset it, or the re-simulation of the
+                // frames <= la1 would be fed the stale prediction instead of the stored real inputs.
+                let predicting: bool = kani::any();
+                let q1 = if predicting {
+                    crate::input_queue::verif_q::build::<CfgRL>(la1, keep, c - 1, &v1, Some(v1[la1 as usize % crate::input_queue::verif_q::RING]), NULL_FRAME)
+                } else {
+                    queue_with(la1, keep, &v1)
+                };
+                vs::install(&mut s.sync_layer, c, $conf, $saved, queue_with(c - 1, keep, &v0), q1);
                 s.local_connect_status[0].last_frame = c - 1;
                 s.local_connect_status[1].last_frame = la1;
                 let ncell = w + 1;
@@ -650,6 +720,7 @@ pub(crate) mod verif_pc {
                 }
                 assert!(reqs.len() == k, "no further request");
                 kani::cover!(true, "rollback executed");
+                kani::cover!(predicting, "remote queue was in prediction mode without a misprediction of its own");
                 core::mem::forget(reqs);
                 core::mem::forget(s);
             }
@@ -815,6 +886,45 @@ pub(crate) mod verif_pc {
         s.local_connect_status[1].last_frame = c - 1;
         s.last_sent_outgoing_input_frame = la;
         s
+    }
+
+    /// register_local_inputs while the session's only remote endpoint is in ANY protocol state (Running, still
+    /// synchronizing, disconnected, shut down; send_input replaced by the recorder): the local input is queued,
+    /// handed on exactly once and REMOVED from the outgoing buffer - so the buffer does not grow by one entry per
+    /// frame once every remote has left the Running state (C18: queued outgoing local inputs stay bounded).
+    #[kani::proof]
+    #[kani::unwind(8)]
+    #[kani::stub(crate::network::protocol::millis_since_epoch, stub_millis)]
+    #[kani::stub(alloc::fmt::format, stub_format)]
+    #[kani::stub(crate::network::protocol::UdpProtocol::send_input, stub_send_input)]
+    #[kani::stub(crate::network::protocol::UdpProtocol::send_all_messages, stub_send_all)]
+    fn pc_outgoing_drained_any_endpoint_state() {
+        let la: Frame = 6;
+        let vals: [u8; crate::input_queue::verif_q::RING] = kani::any();
+        let mut s = session_for_delay(0, la, &vals);
+        let c = s.current_frame();
+        let st: u8 = kani::any();
+        kani::assume(st < 4);
+        vu::set_state(s.player_reg.remotes.get_mut(&9).unwrap(), st);
+        let frames: u8 = kani::any();
+        kani::assume(frames >= 1 && frames <= 2);
+        let v: u8 = kani::any();
+        assert!(s.add_local_input(0, v).is_ok());
+        s.register_local_inputs();
+        assert!(s.outgoing_local_inputs.is_empty(), "C18: the outgoing buffer is drained whatever state the endpoints are in");
+        assert!(s.last_sent_outgoing_input_frame == c && sent_n() == 1 && sent_frame(0) == c);
+        if frames == 2 {
+            // a second frame (the session advanced by one)
+            vs::set_current_frame(&mut s.sync_layer, c + 1);
+            let v2: u8 = kani::any();
+            assert!(s.add_local_input(0, v2).is_ok());
+            s.register_local_inputs();
+            assert!(s.outgoing_local_inputs.is_empty(), "C18: still empty one frame later");
+            assert!(s.last_sent_outgoing_input_frame == c + 1 && sent_n() == 2);
+        }
+        kani::cover!(st == 2 && frames == 2, "endpoint disconnected, two frames");
+        kani::cover!(st == 0, "endpoint running");
+        core::mem::forget(s);
     }
 
     macro_rules! delay_change {
